@@ -612,6 +612,62 @@ def valid_prefix_rule(rep, prog, cfg, rule="C02.valid-prefix", which=("blocking/
 
 
 
+def _full_test_ok(prog, b, loop, helpers, GROW):
+    """The growth of the padded buffer is guarded by `buf.len() == <running count>` (or >=/<= forms): True / False, or None when
+    no guarded growth is found in the places looked at (the loop itself and the read helpers it calls)."""
+    verdict = None
+    bodies = []
+    for bb in loop:
+        t = b.blocks[bb]["t"]
+        if t["k"] != "call":
+            continue
+        ns = callee_names(t)
+        if any(x in GROW for x in ns):
+            bodies.append(b)
+        for n in ns:
+            if n in helpers:
+                for hb in body_by_name(prog, n):
+                    bodies.extend(family(prog, hb))
+    seen = set()
+    for fb in bodies:
+        if fb.id in seen:
+            continue
+        seen.add(fb.id)
+        g = Cfg(fb)
+        fl = Flow(fb)
+        for gb, gt in fb.calls():
+            if not any(x in GROW for x in callee_names(gt)):
+                continue
+            # the comparison that decides whether this block runs
+            for sb in sorted(fb.reachable()):
+                a = switch_atom(fb, sb)
+                if a is None or a["kind"] != "cmp" or a["op"] not in ("Eq", "Ge", "Le", "Ne", "Lt", "Gt"):
+                    continue
+                side = a["true"] if a["op"] in ("Eq", "Ge", "Le") else a["false"]
+                other = a["false"] if side == a["true"] else a["true"]
+                if not (gb in reach(g.succs, [side]) and gb not in reach(g.succs, [other], avoid=[side])):
+                    continue
+                kinds = set()
+                for op_ in (a["lhs"], a["rhs"]):
+                    l = op_local(op_)
+                    if l is None:
+                        kinds.add("const")
+                        continue
+                    leaves, vis = fl.sources([l], through_call=None, follow_mut=False)
+                    if any(x[0] == "call" and any(n.endswith("::len") for n in callee_names(fb.blocks[x[1]]["t"])) for x in leaves):
+                        kinds.add("len")
+                    elif any(x[0] == "param" for x in leaves) or any(
+                            (lambda nm: nm is not None and not str(nm).isdigit())(last_named_field(s2["rv"]["op"].get("copy") or s2["rv"]["op"].get("move") or {"p": []}))
+                            for _, _, s2 in fb.stmts() if s2["k"] == "assign" and s2["place"]["l"] in vis
+                            and s2["rv"]["k"] == "use" and (s2["rv"]["op"].get("copy") or s2["rv"]["op"].get("move"))):
+                        # the running count: (a deref of) a parameter the callers keep, or a count field of the connection
+                        kinds.add("count")
+                    else:
+                        kinds.add("last-read")
+                verdict = (kinds == {"len", "count"}) if verdict is not False else False
+    return verdict
+
+
 def grow_rule(rep, prog, cfg):
     """A slice-based read (`io.read(&mut buf[n..])`) into a full buffer is handed an empty slice and returns 0, which the
     loops classify as end of stream.  Every loop that reads this way must therefore also be able to grow the buffer (in
@@ -659,6 +715,11 @@ def grow_rule(rep, prog, cfg):
                         reads = reads or sr
                         grows = grows or gr
             if reads:
+                full_ok = _full_test_ok(prog, b, loop, helpers, GROW)
+                rep.check(full_ok is not False, rule, "%s/%s buffer grown when it is full" % (cfg, name), b.loc(b.blocks[min(loop)]["ts"]),
+                          "the buffer is grown under a condition that does not compare its length with the number of bytes received so far (the "
+                          "running count): a buffer that fills up through several reads, or behind bytes left over, is not grown and the next read gets an "
+                          "empty slice")
                 rep.check(grows, rule, "%s/%s read loop can grow the buffer" % (cfg, name), b.loc(b.blocks[min(loop)]["ts"]),
                           "%s reads through a slice of a fixed-length buffer in a loop that never grows the buffer: once the buffer is full the read "
                           "gets an empty slice, returns 0 and the input is reported as an unexpected end of stream" % name)
